@@ -69,6 +69,9 @@ def statusConsts : List String :=
 def clientCalls : List String :=
   ["target.go:runTarget.Evaluate:EvaluateTargets:calls=1:inLoop=false:variadic=true", "project.go:Project.Run:Run:calls=1:inLoop=false:variadic=false"]
 
+def skel_builtin_target_deps : String :=
+  "(block (for _ (call (. it Next) (u& v1)) _ (block (var (v0) (* (. label Label)) ()) (typeswitch _ _ (case ((. starlark String)) (:= (v2 v3) ((call (. label Parse) (call string v1)))) (= (v2 v3) ((call (. v2 RelativeTo) (. (. m label) Package)))) (= (v0) (v2))) (case (Target) (= (v0) ((call (. v1 Label))))) (default)) (= (dependencies) ((call append dependencies (call (. v0 String))))))))"
+
 def skel_client_Evaluate : String :=
   "(block (range v0 v1 (call (. engine EvaluateTargets) deps ...) (block (if _ (!= (. v1 Error) nil) (block (return (call (. fmt Errorf) \"dependency %v failed\" (index deps v0)))) _))))"
 
